@@ -151,6 +151,11 @@ def py_fn(t):
         return _raiseif
     if k == 'istrue':
         return lambda x: x is True
+    if k == 'torange':       # Python only (no Coq model): an iterable that is neither list nor tuple
+        return lambda x: range(abs(x) % 4)
+    if k == 'todeque':
+        import collections
+        return lambda x: collections.deque([x, x])
     if k == 'star':
         a = py_fn2(t[1])
         return lambda x: a(x[0], x[1])
